@@ -35,7 +35,7 @@ import (
 	"github.com/dolthub/dolt/go/zzverif/vsql"
 )
 
-const c45PushRule = "part (a): one server; per case @@GLOBAL.dolt_replicate_to_remote='origin', dolt_replication_remote_url_template=file://<scratch>/<case>/{database} and dolt_async_replication (25 synchronous cases run first as their own sub-check; 5 asynchronous cases with at most 8 groups run only if those held) are set, then CREATE DATABASE (which creates the remote and installs the push hook); 10-16 drawn statement groups (the first two create a second branch and commit on it) on up to 3 branches: insert + dolt_commit, working-set-only insert, dolt_branch create / -D, dolt_merge of a side branch into main (fast-forward or merge commit), dolt_reset --hard HEAD~1, dolt_commit --amend, dolt_branch -f of a side branch to main / main~1 / a sibling branch (non-fast-forward moves and rewrites whose new head is not taller than the old one), dolt_tag, and `away` / `back` (the remote directory is renamed away / back, so pushes fail in between; every case has such a stretch starting at its middle step at the latest, and the step after `away` moves a ref). After every statement the harness collects what was reported: SQL error, SHOW WARNINGS, bytes written to the server's error output (cli.CliErr, where the hook writes 'error pushing: ...'), warning/error-level log entries. Oracle: if nothing was reported then for every ref the statement moved the remote directory (opened in process, no cache) has the same commit as the local database (absent when deleted) — with the remote away and nothing reported the case fails as silent divergence; a working-set-only statement never moves a remote ref; closure walk over the remote finds every address. Async mode: the same condition is awaited for at most 8 s per statement (expired wait = inconclusive, not a violation). Non-trivial: at least 2 branches moved, a non-fast-forward move or a deletion, and at least one statement that ran while the remote was away."
+const c45PushRule = "part (a): one server; per case @@GLOBAL.dolt_replicate_to_remote='origin', dolt_replication_remote_url_template=file://<scratch>/<case>/{database} and dolt_async_replication (25 synchronous cases run first as their own sub-check; 5 asynchronous cases with at most 8 groups run only if those held) are set, then CREATE DATABASE (which creates the remote and installs the push hook); 10-16 drawn statement groups (the first two create a second branch and commit on it) on up to 3 branches: insert + dolt_commit, working-set-only insert, dolt_branch create / -D, dolt_merge of a side branch into main (fast-forward or merge commit), dolt_reset --hard HEAD~1, dolt_commit --amend, dolt_branch -f of a side branch to main / main~1 / a sibling branch (non-fast-forward moves and rewrites whose new head is not taller than the old one), dolt_tag, and `away` / `back` (the remote directory is renamed away / back, so pushes fail in between; every case has such a stretch starting at its middle step at the latest, and the step after `away` moves a ref). After every statement the harness collects what was reported: SQL error, SHOW WARNINGS, bytes written to the server's error output (cli.CliErr, where the hook writes 'error pushing: ...'), warning/error-level log entries. Oracle: if nothing was reported then for every ref the statement moved the remote directory (opened in process, no cache) has the same commit as the local database (absent when deleted) — with the remote away and nothing reported the case fails as silent divergence; a working-set-only statement never moves a remote ref, and any other statement changes a remote ref only to the commit the local database has for it (a statement that moves nothing locally may make the remote catch up on a ref whose earlier push failed); closure walk over the remote finds every address. Async mode: the same condition is awaited for at most 8 s per statement (expired wait = inconclusive, not a violation). Non-trivial: at least 2 branches moved, a non-fast-forward move or a deletion, and at least one statement that ran while the remote was away."
 
 const c45ReplicaRule = "part (b): one server; per case a primary database with branches main and b1 pushed to its file remote `origin` (explicit dolt_push), then @@GLOBAL.dolt_read_replica_remote='origin' with dolt_replicate_all_heads=1 or dolt_replicate_heads='main' / 'main,b1', then CALL dolt_clone(remote, replica). 10-16 drawn steps: primary commit+push (fast-forward), commit without push, reset --hard HEAD~1 + push --force, new branch + push, deletion of a remote branch that is not in the replicated list; replica reads (SELECT name, hash FROM dolt_branches) by an autocommit session and by a session inside an explicit transaction (begin / read / commit drawn as separate steps), and `settle` (two consecutive reads with no remote change in between; the second is checked). The harness records every head the remote has had per branch (read from the remote directory after every push). Oracle: every (branch, head) any replica read shows is a head the remote has had for that branch; at a settle point the replicated branches have exactly the remote's current heads, in all-heads mode the branch set equals the remote's (deleted branches are gone); for every head shown at a settle point the rows / schemas / log AS OF that head on the replica equal the record taken on the primary when the commit was made, the replica's working set of that branch has the head's rows; closure walk over the replica finds every address. Non-trivial: at least 2 branches replicated and a force-push or deletion happened before a checked settle point."
 
@@ -381,11 +381,29 @@ func c45PushCase(rt *rapid.T, env *c45Env, rec *vh.Recorder, async bool) {
 				fatalf("after %s: remote: %v", q, err)
 			}
 			var diffs []string
-			if wsOnly || len(touched) == 0 {
-				if c45ShowMap(remote) != c45ShowMap(remoteBefore) {
-					diffs = append(diffs, fmt.Sprintf("no local ref moved but the remote changed from {%s} to {%s}", c45ShowMap(remoteBefore), c45ShowMap(remote)))
+			// a statement may make the remote catch up on a ref whose earlier push failed (e.g. a forced
+			// branch move onto the commit the branch already has re-runs the hook); whatever changes on the
+			// remote must change to the local state, never to anything else
+			changed := map[string]bool{}
+			for k, v := range remote {
+				if remoteBefore[k] != v {
+					changed[k] = true
 				}
 			}
+			for k := range remoteBefore {
+				if _, ok := remote[k]; !ok {
+					changed[k] = true
+				}
+			}
+			for k := range changed {
+				if remote[k] != after[k] {
+					diffs = append(diffs, fmt.Sprintf("%s changed on the remote from %q to %q, the local database has %q", k, remoteBefore[k], remote[k], after[k]))
+				}
+			}
+			if wsOnly && len(changed) > 0 {
+				diffs = append(diffs, fmt.Sprintf("a working-set-only statement changed the remote from {%s} to {%s}", c45ShowMap(remoteBefore), c45ShowMap(remote)))
+			}
+			sort.Strings(diffs)
 			for _, k := range touched {
 				if remote[k] != after[k] {
 					diffs = append(diffs, fmt.Sprintf("%s: local %q, remote %q", k, after[k], remote[k]))
